@@ -101,6 +101,8 @@ func fieldPath(kind string) []string {
 		return []string{"data"}
 	case "Service":
 		return []string{"spec", "selector"}
+	case "CustomResourceDefinition":
+		return []string{"metadata", "annotations"}
 	default:
 		return []string{"spec"}
 	}
